@@ -861,6 +861,7 @@ def adapt_typehints(
         if not isinstance(val, (list, tuple, set)):
             raise_unexpected_value(f"Expected a {typehint_origin}", val)
         val = list(val)
+        adapt_kwargs["orig_val"] = None  # items are not the argument's text
         if subtypehints is not None:
             is_tuple = typehint_origin in {Tuple, tuple}
             is_ellipsis = is_ellipsis_tuple(typehint)
@@ -874,6 +875,7 @@ def adapt_typehints(
 
     # List, Iterable or Sequence
     elif typehint_origin in sequence_origin_types:
+        adapt_kwargs["orig_val"] = None  # items are not the argument's text
         if append:
             adapt_kwargs.pop("prev_val")
             if prev_val is None:
@@ -910,6 +912,7 @@ def adapt_typehints(
 
     # Dict, Mapping
     elif typehint_origin in mapping_origin_types:
+        adapt_kwargs["orig_val"] = None  # items are not the argument's text
         if isinstance(val, NestedArg):
             if isinstance(prev_val, dict):
                 val = {**prev_val, val.key: val.val}
